@@ -248,7 +248,7 @@ def arc_write(files, rng, padded=True, permute_bodies=True, unaligned=False, gap
         info_at = len(d)
         labels.append((len(d), b"Info"))
         for i, (name, body) in enumerate(files):
-            if extra_labels and rng.random() < 0.5:
+            if extra_labels and name not in (b"Count", b"Info") and rng.random() < 0.5:
                 labels.append((len(d), name))
             if bad_name == i:
                 d.extend(struct.pack("<I", 0))           # plain data, no string cell
